@@ -12,6 +12,22 @@ Zones are sets of records `(owner, type, rdata, ttl)` compared by `≃z`: "equal
 version" includes the TTLs.  Versions are coherent zones (`Coherent`: one TTL per rrset, a CNAME never next
 to other data, one rdata per singleton type), which is what makes the model's `put` — with the CNAME
 exclusion of `dns.node` and the TTL/singleton rules of `dns.rdataset` — act as plain set insertion.
+
+* convergence: `axfr_converges`, `ixfr_converges`, `ixfr_denotes`, `axfr_style_ixfr`, `up_to_date_noop`,
+  `udp_ixfr`, `usetcp_retry_converges` (+ `query_of_zone`, `query_of_supplied`, `udp_outcome_final`);
+* atomicity: `error_implies_unapplied` (unconditional); `repair_changed_only_d11`,
+  `before_repair_surplus_was_committed` (historical record);
+* `fault_unchanged`, as a family over accepted streams / well-formed responses (`IxfrAt`), every position,
+  every chunking: `fault_truncate`, `fault_header` (+`_rcode`, `_question`), `fault_surplus_after_final_soa`,
+  `fault_first_not_apex_soa`, `fault_wrong_base_serial`, `fault_backwards_serial`, `fault_use_tcp`,
+  `fault_duplicate_deletion`, `fault_addition_in_delete_mode` (add-start SOA dropped / swapped with the first
+  addition), `fault_drop_delstart_soa` (dropped or type-corrupted), `fault_drop_first_delstart_soa_nodels`,
+  `fault_drop_first_delstart_soa_dels`, `drop_first_delstart_soa_single_step`, `drop_addstart_soa_without_additions`,
+  `fault_drop_first_soa_ixfr`, `fault_nonapex_soa_in_add_mode`, `fault_nonapex_soa_in_delete_mode`,
+  `fault_axfr_nonapex_soa`;
+* undetectable faults, result = what the stream denotes: `fault_drop_axfr_record_denotes`,
+  `fault_drop_deletion_denotes`, `fault_swap_deletion_across_boundary`;
+* `consts_ok`, `serialLt_asymm`, `serialLt_ahead`, `extract_of_make`.
 -/
 namespace C13
 open Model.Xfr
@@ -270,6 +286,25 @@ theorem fault_first_not_apex_soa (c : Config) (o : Name) (z0 : Zone) (s0 : Inbou
 zone `z0` with SOA `cur`, looked at its sequence `st`.  `dn` below is the server's final SOA.  Every
 theorem holds for every division of the faulty stream into messages (`Chunks`). -/
 
+/-- every difference sequence of every valid chain of versions is such a place: the fault theorems below
+speak about every valid IXFR response -/
+theorem ixfrAt_of_versions (o : Name) (v0 : Version) (pre : List Version) (b : Version) (post : List Version)
+    (z0 : Zone) (hz0 : z0 ≃z zoneOf o v0) (hv0 : WfVersion o v0) (hvs : ∀ v ∈ pre ++ b :: post, WfVersion o v)
+    (hdist : ∀ v ∈ (v0 :: (pre ++ b :: post)).dropLast, v.soa.rdata ≠ (lastVersion v0 (pre ++ b :: post)).soa.rdata)
+    (hs1 : (lastVersion v0 (pre ++ b :: post)).soa.rdata.serial ≠ v0.soa.rdata.serial)
+    (hs2 : serialLt (lastVersion v0 (pre ++ b :: post)).soa.rdata.serial v0.soa.rdata.serial = false) :
+    IxfrAt o v0.soa (diffSteps v0 pre) (diffStep (lastVersion v0 pre) b) (diffSteps b post) z0 := by
+  have happ : ∀ (pre : List Version) (a : Version),
+      diffSteps a (pre ++ b :: post) = diffSteps a pre ++ diffStep (lastVersion a pre) b :: diffSteps b post := by
+    intro pre
+    induction pre with
+    | nil => intro a; rfl
+    | cons c cs ih => intro a; simp [diffSteps, lastVersion, ih c]
+  have hl := lastSoa_diffSteps (pre ++ b :: post) v0
+  have hok := stepsOk_diff (dn := (lastVersion v0 (pre ++ b :: post)).soa) (pre ++ b :: post) v0 z0 hz0 hv0 hvs hdist
+  rw [happ pre v0] at hl hok
+  exact ⟨by rw [hl]; exact hs1, by rw [hl]; exact hs2, Coherent.congr hz0 hv0.coherent, by rw [hl]; exact hok.1⟩
+
 /-- **A deletion sent twice**, in any difference sequence, at any position `j`: the second copy cannot be
 exact — `DeleteNotExact`, zone exactly as before. -/
 theorem fault_duplicate_deletion (o : Name) (cur : Soa) (pre : List Step) (st : Step) (post : List Step) (z0 : Zone)
@@ -330,6 +365,74 @@ theorem fault_addition_in_delete_mode (o : Name) (cur : Soa) (pre : List Step) (
   exact raise_at rfl hf hB rfl
     (mid_del_absent (W := W) (hadd a ha).1 (hadd a ha).2 hW (fun r hr => hsubW r ((hmem r).1 hr)) haW
       (fun hr => hfresh ((hmem a).1 hr))) hc
+
+/-- … and for a server's own differences its side conditions hold: an addition of the step from version
+`a` to version `b` is not among what is left of `a` after the deletions, and together they form a coherent
+zone. -/
+theorem fresh_addition_of_versions (o : Name) (a b : Version) (w : Zone) (x : RR)
+    (hw : w ≃z zoneOf o a) (ha : WfVersion o a) (hb : WfVersion o b) (hx : x ∈ (diffStep a b).adds) :
+    Coherent (delAll w (diffStep a b).dels ++ [x]) ∧ x ∈ delAll w (diffStep a b).dels ++ [x] ∧
+      (∀ q ∈ delAll w (diffStep a b).dels, q ∈ delAll w (diffStep a b).dels ++ [x]) ∧
+      x ∉ delAll w (diffStep a b).dels := by
+  simp only [diffStep, List.mem_filter, decide_eq_true_eq] at hx
+  have hxb : x ∈ zoneOf o b := mem_zoneOf.2 (Or.inl hx.1)
+  have hxt := (mem_recsOfAll_ok hb.body hx.1).1
+  -- what is left after the deletions: records common to both versions, and the old SOA
+  have hleft : ∀ q, q ∈ delAll w (diffStep a b).dels → (q ∈ recsOfAll a.body ∧ q ∈ recsOfAll b.body) ∨ q = soaRec o a.soa := by
+    intro q hq
+    rw [mem_delAll] at hq
+    simp only [diffStep, List.mem_filter, decide_eq_true_eq, not_and] at hq
+    rcases mem_zoneOf.1 ((hw q).1 hq.1) with h | h
+    · exact Or.inl ⟨h, Classical.not_not.1 (hq.2 h)⟩
+    · exact Or.inr h
+  have hnot : x ∉ delAll w (diffStep a b).dels := by
+    intro h
+    rcases hleft x h with h' | h'
+    · exact hx.2 h'.1
+    · rw [h'] at hxt; exact hxt rfl
+  have hwc : Coherent w := Coherent.congr hw ha.coherent
+  have hdc : Coherent (delAll w (diffStep a b).dels) := hwc.subset fun q hq => ((mem_delAll _ _ _).1 hq).1
+  -- the pair (q, x) for q left over: both in version b, or q the old SOA (a different type at the apex)
+  have hsoab : soaRec o b.soa ∈ zoneOf o b := mem_zoneOf.2 (Or.inr rfl)
+  have hxnc : x.owner = o → kindOf x.rdtype ≠ .cname :=
+    fun ho => no_cname_beside hb.coherent hsoab (soaRec_regular o b.soa) x hxb ho
+  have pair : ∀ q ∈ delAll w (diffStep a b).dels,
+      (q.owner = x.owner → q.rdtype = x.rdtype → q.ttl = x.ttl ∧ (isSingleton q.rdtype = true → q.rdata = x.rdata)) ∧
+      (q.owner = x.owner → drivesOut q.rdtype x = false ∧ drivesOut x.rdtype q = false) := by
+    intro q hq
+    rcases hleft q hq with h | h
+    · have hqb : q ∈ zoneOf o b := mem_zoneOf.2 (Or.inl h.2)
+      exact ⟨fun ho ht => ⟨hb.coherent.1 q hqb x hxb ho ht, fun hs => hb.coherent.2.2 q hqb x hxb ho ht hs⟩,
+        fun ho => ⟨hb.coherent.2.1 q hqb x hxb ho, hb.coherent.2.1 x hxb q hqb ho.symm⟩⟩
+    · subst h
+      refine ⟨fun _ ht => absurd ht.symm hxt, fun ho => ?_⟩
+      have hk := hxnc ho.symm
+      simp only [drivesOut, soaRec, kindOf_soa]
+      cases hkx : kindOf x.rdtype <;> simp_all
+  have hself : ∀ r : RR, drivesOut r.rdtype r = false := by
+    intro r; simp only [drivesOut]; cases kindOf r.rdtype <;> rfl
+  refine ⟨⟨?_, ?_, ?_⟩, by simp, fun q hq => List.mem_append.2 (Or.inl hq), hnot⟩
+  · intro p hp q hq ho ht
+    simp only [List.mem_append, List.mem_singleton] at hp hq
+    rcases hp with hp | rfl <;> rcases hq with hq | rfl
+    · exact hdc.1 p hp q hq ho ht
+    · exact ((pair p hp).1 ho ht).1
+    · exact (((pair q hq).1 ho.symm ht.symm).1).symm
+    · rfl
+  · intro p hp q hq ho
+    simp only [List.mem_append, List.mem_singleton] at hp hq
+    rcases hp with hp | rfl <;> rcases hq with hq | rfl
+    · exact hdc.2.1 p hp q hq ho
+    · exact ((pair p hp).2 ho).1
+    · exact ((pair q hq).2 ho.symm).2
+    · exact hself _
+  · intro p hp q hq ho ht hs
+    simp only [List.mem_append, List.mem_singleton] at hp hq
+    rcases hp with hp | rfl <;> rcases hq with hq | rfl
+    · exact hdc.2.2 p hp q hq ho ht hs
+    · exact ((pair p hp).1 ho ht).2 hs
+    · exact (((pair q hq).1 ho.symm ht.symm).2 (ht ▸ hs)).symm
+    · rfl
 
 /-- **The SOA that opens a difference sequence is dropped** (any sequence but the first), or its type is
 corrupted so that it and possibly other junk `junk` is read as data: the deletions are taken for additions
